@@ -556,7 +556,7 @@ func (env *Zlisp) CallResolved(funcobj Sexp, callName string, args []Sexp) error
 	if funcobj == nil {
 		return fmt.Errorf("not a function on top of datastack: <nil>")
 	}
-	return fmt.Errorf("not a function on top of datastack: '%T/%#v'", funcobj, funcobj)
+	return fmt.Errorf("not a function on top of datastack: '%T/%s'", funcobj, funcobj.SexpString(nil))
 }
 
 func (env *Zlisp) CallFunction(function *SexpFunction, nargs int) error {
